@@ -11,7 +11,9 @@ use super::ExecuteRequest;
 /// Returns true if the URI scheme is presumed secure.
 fn is_schema_secure(uri: &Uri) -> bool {
     uri.scheme_str()
-        .map(|scheme_str| matches!(scheme_str, "wss" | "https"))
+        .map(|scheme_str| {
+            scheme_str.eq_ignore_ascii_case("wss") || scheme_str.eq_ignore_ascii_case("https")
+        })
         .unwrap_or_default()
 }
 
